@@ -121,6 +121,13 @@ nodeLoop:
 		if len(m) < 2 {
 			continue nodeLoop
 		}
+		var groups [][]*ast.BinaryExpr
+		for _, pairs := range m {
+			groups = append(groups, pairs)
+		}
+		if hasDuplicateConstants(pass, groups) {
+			continue nodeLoop
+		}
 
 		// Note that we insert the switch statement as the first text edit instead of the last one so that gopls has an
 		// easier time converting it to an LSP-conforming edit.
@@ -202,4 +209,25 @@ func findSwitchPairs(pass *analysis.Pass, expr ast.Expr, pairs *[]*ast.BinaryExp
 	default:
 		return false
 	}
+}
+
+// hasDuplicateConstants reports whether two of the comparisons compare against
+// the same constant: legal in a chain of conditions, but "duplicate case" in a
+// tagged switch.
+func hasDuplicateConstants(pass *analysis.Pass, groups [][]*ast.BinaryExpr) bool {
+	seen := map[string]bool{}
+	for _, group := range groups {
+		for _, cmp := range group {
+			tv, ok := pass.TypesInfo.Types[cmp.Y]
+			if !ok || tv.Value == nil {
+				continue
+			}
+			key := tv.Value.ExactString()
+			if seen[key] {
+				return true
+			}
+			seen[key] = true
+		}
+	}
+	return false
 }
